@@ -16,7 +16,7 @@ checks = {
    note="net/http and gorilla/websocket are real but not instrumented (they run freely between two scheduler events); SimTCP replaces the kernel; crypto/rand.Reader is a seeded reader. 0 = unlimited is checked only for the flags documented that way (--max-sessions, --max-receivers-per-sender, --max-ws-connections).",
    technique="deterministic simulation: real server main over simulated TCP with fake clock, seeded schedules, concurrent request bursts"),
  "C16": dict(level="exploration", design="4/C16",
-   text="One server configuration per run is drawn from the grid {12 limit/timeout flags x (default, small, 0)} x TURN off / 1-2 TURN URLs in 8 spellings with secrets containing URL-significant characters, with peer ids containing URL-significant characters; the real clienthttp.CreateSession, buildWebSocketURL, wsclient.Dial and ReadLoop run for both roles against the real server main over simulated TCP, and the TURN credentials the server pushes are parsed with the client's parseTurnServer and compared with the user, secret and endpoint the configured secret and URL mean. No faults.",
+   text="One server configuration per run is drawn from the grid {12 limit/timeout flags x (default, small, 0)} x TURN off / 1-2 TURN URLs in 11 spellings (host names, IPv4 and IPv6 literals) with secrets containing URL-significant characters, with peer ids containing URL-significant characters; the real clienthttp.CreateSession, buildWebSocketURL, wsclient.Dial and ReadLoop run for both roles against the real server main over simulated TCP, and the TURN credentials the server pushes are parsed with the client's parseTurnServer and compared with the user, secret and endpoint the configured secret and URL mean. No faults.",
    note="What the simulator adds here is running the real server and clients as nodes of one process over SimTCP with a per-run configuration and a fake clock for the timeouts; the TURN URL agreement itself is a pure function pair that rides along. net/http and gorilla are real but not instrumented.",
    technique="deterministic simulation of server and clients over simulated TCP, swarm over server configurations"),
  "C08": dict(level="fault_enumeration", design="4/C08",
@@ -75,6 +75,19 @@ na = {
  "C18": "pure encode/decode round trip; no schedule, clock, peer or fault to simulate (DESIGN.md section 4)",
  "C19": "pure integer arithmetic over (file size, chunk size); nothing to schedule or fail (DESIGN.md section 4)",
 }
+# parts of a check that run in tier T4 (the whole application in one bubble, DESIGN.md 2.4)
+T4 = {
+ "C01": "C01APP (several paths on the host's command line)",
+ "C02": "C02APP (dead path, killed or quitting host, killed receiver; the host's own report is read off its captured terminal)",
+ "C03": "C03APP (healthy single receiver, small QUIC stream limits) and C03MULTI (several healthy receivers of one host)",
+ "C04": "C04APP (receiver killed at the n-th file-system or network operation of its process, or the host killed and the tree hosted again; then thru join again with resume)",
+ "C08": "C08APP (an attacker without the join code as rogue listener or rogue dialer, on the primary and on extra connections; no payload before authentication)",
+ "C09": "C09APP (multi-homed hosts, equal and asymmetric latencies, unreachable offered addresses; both racing sides as shipped)",
+ "C12": "C12APP (one real host with --max-receivers N and 2-4 real receivers, leaves and vanishing receivers, judged from outside the host process)",
+}
+for pid, txt in T4.items():
+    checks[pid]["note"] += " A further part of this check runs the real `thru host` / `thru join` flows against the real thruserv in one bubble (tier T4: signaling over simulated TCP, real quic-go over simulated UDP, the application's socket / interface / stdin calls behind textual seams): " + txt + ". There quic-go, net/http and gorilla run freely between scheduler steps and a replay reproduces the outcome, not a decision log."
+checks["C12"]["note"] = checks["C12"]["note"].replace("the bodies of the real transfer functions do not run here.", "the bodies of the real transfer functions do not run in the main part (they do in part C12APP).")
 ids = [json.loads(l)["id"] for l in open("/verif/properties.jsonl")]
 m = {
  "version": 1,
